@@ -15,7 +15,7 @@ VARIABLE c
 Obs == ndJsonDeserialize("obs.ndjson")
 
 Mk(m) == [nil |-> m.nil, paths |-> m.paths]
-OptsOf(t) == [t.o EXCEPT !.M = Mk(t.o.M), !.R = Mk(t.o.R)]
+OptsOf(t) == [t.o EXCEPT !.M = Mk(t.o.M), !.R = Mk(t.o.R), !.mm = Mk(t.o.mm)]
 SubOf(s) == [updatesOnly |-> s.updatesOnly, mask |-> Mk(s.mask), inc |-> s.inc]
 If(b, name) == IF b THEN {} ELSE {name}
 
